@@ -12,7 +12,7 @@ set +e
 PYTHONPATH="$wt" timeout 120 /venv/bin/python "$demo" > /tmp/seed-$name.with.log 2>&1; with=$?
 echo "exit=$with: $(tail -2 /tmp/seed-$name.with.log | tr '\n' ' ' | cut -c1-200)"
 echo "== demo on unchanged /repo (expect PASS/exit 0)"
-rm -rf /tmp/seedrun-$name; mkdir -p /tmp/seedrun-$name; cp "$wt/$demo" /tmp/seedrun-$name/
+rm -rf /tmp/seedrun-$name; mkdir -p /tmp/seedrun-$name; cp "$wt"/demo_*.py /tmp/seedrun-$name/
 (cd /tmp/seedrun-$name && PYTHONPATH=/repo timeout 120 /venv/bin/python "$demo" > /tmp/seed-$name.without.log 2>&1); without=$?
 rm -rf /tmp/seedrun-$name
 echo "exit=$without: $(tail -1 /tmp/seed-$name.without.log | cut -c1-200)"
@@ -23,7 +23,7 @@ set -e
 if [ "$with" = "0" ] || [ "$without" != "0" ] || [ "$suite" != "0" ]; then echo "SEED $name NOT CONFIRMED"; exit 4; fi
 d=/verif/seeded/$name
 mkdir -p "$d"
-cp /tmp/seed-$name.diff "$d/patch.diff"; cp "$wt/$demo" "$d/"; [ -f "$wt/notes.md" ] && cp "$wt/notes.md" "$d/notes.md"
+cp /tmp/seed-$name.diff "$d/patch.diff"; cp "$wt"/demo_*.py "$d/"; [ -f "$wt/notes.md" ] && cp "$wt/notes.md" "$d/notes.md"
 echo "== checks against /repo with the patch applied"
 git -C /repo apply "$d/patch.diff"
 results=""
